@@ -272,6 +272,34 @@ def fam_dead_code(d):
     return PRELUDE + ctx + body + "for q in [0, 1, 2, 4, 6]:\n    try:\n        print(t(q))\n    except ValueError:\n        print('ve')\n"
 
 
+JUMP_WRAPPERS = [
+    "if n >= v:\n    {jump}\n",
+    "if n < v:\n    pass\nelse:\n    {jump}\n",
+    "try:\n    if n >= v:\n        raise KeyError(n)\nexcept KeyError:\n    {jump}\n",
+    "try:\n    data[n - v + 4]\nexcept IndexError:\n    {jump}\n",
+    "try:\n    pass\nfinally:\n    if n >= v:\n        {jump}\n",
+    "try:\n    m = n\nexcept KeyError:\n    pass\nelse:\n    if m >= v:\n        {jump}\n",
+    "with open_ctx():\n    if n >= v:\n        {jump}\n",
+    "match n >= v:\n    case True:\n        {jump}\n    case _:\n        pass\n",
+    "for _ in []:\n    pass\nelse:\n    if n >= v:\n        {jump}\n",
+    "while n < v:\n    n += 1\nelse:\n    {jump}\n",
+    "try:\n    try:\n        raise KeyError(n)\n    finally:\n        n += 0\nexcept KeyError:\n    if n >= v:\n        {jump}\n",
+]
+
+
+def fam_loop_exit(d):
+    """A loop with a constant-true test whose ONLY exit sits in a nested position (handler, finally, else, with, match case)."""
+    head = d.pick(["while True:", "while 1:", "while not False:", "while 'x':"])
+    jump = d.pick(["break", "break", "break", "return n"])
+    wrapper = d.pick(JUMP_WRAPPERS).replace("{jump}", jump)
+    pre = d.pick(["", "print('it', n)\n", "if n > 50:\n    raise ValueError(n)\n"])
+    body = "n += 1\n" + pre + wrapper
+    after = d.pick(["print('after', n)\nreturn n\n", "total = n * 2\nprint('after')\nreturn total\n", "return -n\n"])
+    fn = "def t(v):\n    n = 0\n    " + head + "\n" + textwrap.indent(body, "        ") + textwrap.indent(after, "    ")
+    ctx = "class open_ctx:\n    def __enter__(self):\n        return 1\n    def __exit__(self, *a):\n        return False\n"
+    return PRELUDE + ctx + fn + "for q in [0, 1, 3]:\n    print(t(q))\n"
+
+
 def fam_pointless(d):
     stmts = ["v", "3", "'text'", "v + 1", "[v, 2]", "twice(v)", "check(v) or print('side')", "data.append(v)", "(print('gen') for _ in data)",
              "[print('lc') for _ in range(1)]", "v if v else print('x')", "f'{print(1)}'", "data[0]", "v == 2", "None", "...",
@@ -477,6 +505,7 @@ def fam_math(d):
         ("n = 4\nprint(sum(range(n)), sum(i for i in range(n)), sum([i for i in range(1, n)]))\n" if "F-C01-03" not in AVOID
          else "n = 4\nprint(sum(range(4)), sum(i for i in range(2, 5)), len(range(n)))\n"),
         "print([x for x in range(10) if x > 4], [x for x in range(10) if x < 3 and x >= 1], {x for x in range(6) if x == 2})\n",
+        "print([x for x in range(10) if {a} < x], [x for x in range(10) if {b} > x and {a} <= x], sorted({x for x in range(8) if {b} >= x}), [x for x in range(2, 9) if {a} <= x < {b}], list(x for x in range(9) if {b} == x))\n".replace("{a}", str(d.int(0, 5))).replace("{b}", str(d.int(3, 9))),
         "a = [[1, 2], [3, 4]]\nprint([[r[i] for r in a] for i in range(2)])\nprint(list(zip(*a)))\n" + ("" if "F-C01-04" in AVOID else "print(list(zip(*zip(*a))))\n"),
         "print(sum([1.5, 2.5]), sum([1, 2.0]), sum([True, 2]))\n",
     ])
@@ -561,7 +590,7 @@ FAMILIES = {
     "move_before_loop": fam_move_before_loop, "classes": fam_classes, "duplicates": fam_duplicates, "builtin_chains": fam_builtin_chains,
     "defaultdict": fam_defaultdict, "boolean": fam_boolean, "naming": fam_naming, "constants": fam_constants, "imports": fam_imports,
     "strings": fam_strings, "raise_from": fam_raise_from, "starred": fam_starred, "context_manager": fam_context_manager, "math": fam_math,
-    "layout": fam_layout, "misc_rewrites": fam_misc_rewrites, "loop_state": fam_loop_state, "string_literals": fam_string_literals,
+    "layout": fam_layout, "misc_rewrites": fam_misc_rewrites, "loop_state": fam_loop_state, "string_literals": fam_string_literals, "loop_exit": fam_loop_exit,
 }
 NUMPY_FAMILIES = {"numpy": fam_numpy}
 
